@@ -427,8 +427,27 @@ fn c06_one(bytes: Vec<u8>, phase: usize) -> (End, Vec<(String, String)>, u64) {
         let ra = n1.subscriber.create_datareader::<KeyedData>(&tv1, QosKind::Specific(reliable_r(HistoryQosPolicyKind::KeepAll)), NO_LISTENER, NO_STATUS).await.unwrap();
         let wb = n1.publisher.create_datawriter::<KeyedData>(&tv1, QosKind::Specific(reliable_w(HistoryQosPolicyKind::KeepAll, Some(100))), NO_LISTENER, NO_STATUS).await.unwrap();
         let rb = n2.subscriber.create_datareader::<KeyedData>(&tv2, QosKind::Specific(reliable_r(HistoryQosPolicyKind::KeepAll)), NO_LISTENER, NO_STATUS).await.unwrap();
+        // A datagram whose RTPS header carries the GUID prefix of P1 or P2 and that holds a participant announcement
+        // (SPDP writer entity id) is a forged announcement of a live participant: whatever it says about locators, lease
+        // or endpoints legitimately replaces what the peer knows (spoofing, not a robustness failure), so the matching
+        // and communication oracles do not apply; crash / hang / allocation / API oracles still do.
+        let prefixes: Vec<[u8; 12]> = [n1.participant.get_instance_handle(), n2.participant.get_instance_handle()]
+            .iter()
+            .map(|h| {
+                let b: [u8; 16] = (*h).into();
+                let mut p = [0u8; 12];
+                p.copy_from_slice(&b[..12]);
+                p
+            })
+            .collect();
+        let forged_participant_announcement =
+            bytes.len() >= 20 && prefixes.iter().any(|p| &bytes[8..20] == p) && bytes.windows(4).any(|w| w == [0x00, 0x01, 0x00, 0xc2]);
         if !wait_pub_matched(&ctx, &w, 1, 3000).await || !wait_sub_matched(&ctx, &r, 1, 3000).await || !wait_sub_matched(&ctx, &ra, 2, 3000).await || !wait_sub_matched(&ctx, &rb, 2, 3000).await {
-            ctx.violation("no-match-after-injection", "P1 and P2 did not match");
+            if forged_participant_announcement {
+                ctx.obs("forged announcement of a live participant: matching oracle skipped");
+            } else {
+                ctx.violation("no-match-after-injection", "P1 and P2 did not match");
+            }
             return;
         }
         // a forged datagram naming the liveness endpoints themselves can legitimately shadow their sequence numbers
@@ -459,8 +478,8 @@ fn c06_one(bytes: Vec<u8>, phase: usize) -> (End, Vec<(String, String)>, u64) {
         if n1.participant.create_topic::<KeyedData>("T2", "T", QosKind::Default, NO_LISTENER, NO_STATUS).await.is_err() {
             ctx.violation("api-dead/create_topic", "create_topic failed after the injection");
         }
-        if names_live_endpoint {
-            ctx.obs("datagram names a liveness endpoint: communication oracle skipped");
+        if names_live_endpoint || forged_participant_announcement {
+            ctx.obs("datagram names a liveness endpoint or forges a live participant's announcement: communication oracle skipped");
             let _ = (&r, &r2);
             return;
         }
